@@ -5,7 +5,7 @@
 // sem_timedwait.  After every round the main thread drains the semaphore with polling waits.
 // usage: c08_sema <seed> <rounds> <perturb_permille>
 // output: "S <round> <v> <nthreads> <drained> <off_sema> <rescues> <final dsema_value> <final kernel count>" lines (or a final "H <round> <v> <nthreads> <rescues> <stuck>" when
-//         waiters stay parked although > 5000 rescue signals arrived over > 15 s), then the recorder dump (E lines; obj = round;
+//         waiters stay parked although > 5000 rescue signals arrived and no operation completed for > 15 s), then the recorder dump (E lines; obj = round;
 //         offset 0 = dsema_value, offset <off_sema> = dsema_sema).
 // harness events: DVU_CALL a = 0 (signal) | 1 (wait), b = timeout argument;
 //                 DVU_RET  a = return value, b = the library's clock (same encoding as the timeout) after the return
@@ -121,7 +121,8 @@ int main(int argc, char **argv) {
 			usleep((useconds_t)(100 + x % 200));
 			if (x % 3 == 0) pthread_kill(th[(x >> 8) % (unsigned)n], SIGUSR1);
 			long p = atomic_load(&progress);
-			if (p != last) { last = p; idle_ticks = 0; } else idle_ticks++;
+			if (p != last) { last = p; idle_ticks = 0; if (stalled) clock_gettime(CLOCK_MONOTONIC, &stall_t0); }	// the 15 s below count time WITHOUT progress
+			else idle_ticks++;
 			if (idle_ticks > 40 && !stalled) { stalled = 1; clock_gettime(CLOCK_MONOTONIC, &stall_t0); }
 			if (stalled) { do_signal(cur, i); rescues++; }
 			if (stalled && rescues > 5000) {
